@@ -1,14 +1,8 @@
-(* C15 — specification-level notions used in the statements of the property theorems (definitions only). *)
+(* C15 — executable specification-level notions used in the statements of the property theorems
+   (Gallina functions only; the two Prop-valued notions `occurs` and `env_res` are in ProofsBase.v). *)
 From Coq Require Import List Bool Arith PeanoNat.
 From Annot Require Import Model.
 Import ListNotations.
-
-(* nested occurrence of a statement in a block *)
-Inductive occurs {A} : stmt A -> list (stmt A) -> Prop :=
-| occ_here : forall s l, In s l -> occurs s l
-| occ_if1 : forall s b1 b2 l, In (SIf b1 b2) l -> occurs s b1 -> occurs s l
-| occ_if2 : forall s b1 b2 l, In (SIf b1 b2) l -> occurs s b2 -> occurs s l
-| occ_for : forall s b l, In (SFor b) l -> occurs s b -> occurs s l.
 
 (* the resolved (non-R) precisions at the leaves of a numeric expression: typed literals and buffer reads *)
 Fixpoint leafs {A} (G : env) (e : expr A) : list prec :=
@@ -36,9 +30,6 @@ Fixpoint unif (e : expr prec) : bool :=
   | EBin a l r => prec_eqb (ty l) a && prec_eqb (ty r) a && unif l && unif r
   | EExt a args => forallb (fun x => prec_eqb (ty x) a && unif x) args
   end.
-
-(* every binding of the environment carries a resolved precision *)
-Definition env_res (G : env) : Prop := forall x b, lookup x G = Some b -> b_prec b <> PR.
 
 (* window consistency of the call sites of an analysed procedure: a window formal receives a window,
    a dense formal does not *)
